@@ -321,7 +321,8 @@ func c16Case(c *core.C) {
 			return
 		}
 	}
-	for _, pt := range []string{"npm", "deb", "apk", "golang", "absent"} {
+	// queried types include proper prefixes and extensions of the types present (go/golang, np/npm, apk2/apk)
+	for _, pt := range []string{"npm", "deb", "apk", "golang", "absent", "go", "np", "ap", "golan", "apk2", "de"} {
 		want := gen.Set{}
 		for _, x := range nl.Nodes {
 			p := purlOf(x)
